@@ -61,13 +61,30 @@ func (g *gen) outsideBlobbers(a *allocInfo) []*prov {
 	for _, b := range g.allocBlobbers(a) {
 		in[b.key.ID] = true
 	}
+	pool := g.blobbers
+	if g.isEnt(a) {
+		pool = g.eblobbers
+	}
 	var out []*prov
-	for _, b := range g.blobbers {
+	for _, b := range pool {
 		if !in[b.key.ID] {
 			out = append(out, b)
 		}
 	}
 	return out
+}
+
+func (g *gen) isEnt(a *allocInfo) bool {
+	sa := findAlloc(g.prev, a.id)
+	return sa != nil && sa.Present && sa.Enterprise
+}
+
+// entTicket: an enterprise (or restricted) blobber authorises an owner by signing the owner's id.
+func (g *gen) entTicket(a *allocInfo, nb *prov) string {
+	if g.chance(8) {
+		return g.clients[3].Sign(g.ownerOf(a).ID) // not the blobber's signature
+	}
+	return nb.key.Sign(g.ownerOf(a).ID)
 }
 
 func (g *gen) ownerOf(a *allocInfo) *world.Key {
@@ -105,25 +122,8 @@ func (g *gen) caller(a *allocInfo, pOwner, pBlobber int) (*world.Key, string) {
 // ---------------------------------------------------------------- one trace
 
 func (g *gen) random(id int) {
+	g.start(id, "random")
 	w := g.w
-	w.Now = g.baseNow + 5
-	g.beginBlock(g.base, 1)
-	g.allocs = append([]*allocInfo{}, g.baseAllocs...)
-	g.readKeys, g.readKeySet = nil, map[string]bool{}
-	g.nonceSeq = 0
-	g.t0 = w.Now
-	g.round0 = w.Cur.Round
-	g.rc.TraceID = id - 1
-	g.rc.Reset(rec.M{"family": "storage", "kind": "random", "id": id, "seed": g.a.Seed, "steps": g.a.Steps, "extra": g.a.Extra},
-		rec.M{"nonces": w.InitNonces(w.CurState)})
-	snap := g.snapshot()
-	g.w0 = w.Balance(world.Contracts["storagesc"])
-	g.l0 = new(big.Int).Set(liabilities(snap).total)
-	bal := g.balances()
-	g.prev = snap
-	m := g.project("init", w.Owner, "init", 0, opInfo{variant: "init"}, snap, bal, bal, false)
-	g.rc.Emit(m, "init", false)
-
 	// reads need a funded read pool: most traces start with one
 	if g.chance(70) {
 		g.do(g.clients[g.r.Intn(3)], "read_pool_lock", map[string]interface{}{}, g.pickU(20000, 200000), opInfo{variant: "lock"})
@@ -137,6 +137,68 @@ func (g *gen) random(id int) {
 		g.step()
 	}
 	w.EndBlock()
+}
+
+// scenario k: 1 = kill a blobber that holds data, replace it, close after expiry; 2 = kill a blobber twice, try
+// to close after expiry; 3 = the delegate shuts its blobber down and empties both stake pool nodes.
+func (g *gen) scenario(id, k int) {
+	g.start(id, "scenario-"+itoa(k))
+	w := g.w
+	a1 := g.allocs[0]
+	owner := g.ownerOf(a1)
+	kill := func(b *prov, v string) {
+		g.do(w.Owner, "kill_blobber", map[string]interface{}{"provider_id": b.key.ID}, 0, opInfo{variant: v, tblob: b.key.ID})
+	}
+	closeAll := func() {
+		g.nextBlock(4000, 2)
+		g.do(owner, "finalize_allocation", map[string]interface{}{"allocation_id": a1.id}, 0, opInfo{variant: "owner", target: a1.id})
+		g.do(owner, "cancel_allocation", map[string]interface{}{"allocation_id": a1.id}, 0, opInfo{variant: "owner", target: a1.id})
+		g.do(g.blobbers[2].key, "finalize_allocation", map[string]interface{}{"allocation_id": a1.id}, 0, opInfo{variant: "blobber", target: a1.id})
+	}
+	switch k {
+	case 1:
+		kill(g.blobbers[1], "owner")
+		g.nextBlock(60, 1)
+		g.do(g.blobbers[5].key, "blobber_health_check", map[string]interface{}{}, 0, opInfo{variant: "one"})
+		g.do(owner, "update_allocation_request", map[string]interface{}{"id": a1.id, "add_blobber_id": g.blobbers[5].key.ID, "remove_blobber_id": g.blobbers[1].key.ID}, 0,
+			opInfo{variant: "replace-killed-owner", target: a1.id, tblob: g.blobbers[1].key.ID})
+		closeAll()
+	case 2:
+		kill(g.blobbers[0], "owner")
+		g.nextBlock(60, 1)
+		kill(g.blobbers[0], "again")
+		g.do(owner, "update_allocation_request", map[string]interface{}{"id": a1.id, "extend": true}, 0, opInfo{variant: "extend-owner", target: a1.id})
+		closeAll()
+	case 3:
+		b := g.blobbers[3] // serves no allocation
+		g.do(b.delegate, "shutdown_blobber", map[string]interface{}{"provider_id": b.key.ID}, 0, opInfo{variant: "delegate", tblob: b.key.ID})
+		g.nextBlock(60, 1)
+		g.do(b.delegate, "stake_pool_unlock", map[string]interface{}{"provider_type": 3, "provider_id": b.delegate.ID}, 0, opInfo{variant: "unlock-extra", tblob: b.key.ID})
+		g.do(b.delegate, "stake_pool_unlock", map[string]interface{}{"provider_type": 3, "provider_id": b.key.ID}, 0, opInfo{variant: "unlock", tblob: b.key.ID})
+	}
+	w.EndBlock()
+}
+
+// start forks the base block and opens trace `id`.
+func (g *gen) start(id int, kind string) {
+	w := g.w
+	w.Now = g.baseNow + 5
+	g.beginBlock(g.base, 1)
+	g.allocs = append([]*allocInfo{}, g.baseAllocs...)
+	g.readKeys, g.readKeySet = nil, map[string]bool{}
+	g.nonceSeq = 0
+	g.t0 = w.Now
+	g.round0 = w.Cur.Round
+	g.rc.TraceID = id - 1
+	g.rc.Reset(rec.M{"family": "storage", "kind": kind, "id": id, "seed": g.a.Seed, "steps": g.a.Steps, "extra": g.a.Extra},
+		rec.M{"nonces": w.InitNonces(w.CurState)})
+	snap := g.snapshot()
+	g.w0 = w.Balance(world.Contracts["storagesc"])
+	g.l0 = new(big.Int).Set(liabilities(snap).total)
+	bal := g.balances()
+	g.prev = snap
+	m := g.project("init", w.Owner, "init", 0, opInfo{variant: "init"}, snap, bal, bal, false)
+	g.rc.Emit(m, "init", false)
 }
 
 // maybeAdvance moves block time and rounds forward.
@@ -218,8 +280,14 @@ func (g *gen) stepWrite() {
 	signer := g.ownerOf(a)
 	tamper := ""
 	switch x := g.r.Intn(100); {
-	case x < 4:
-		signer, variant = g.clients[2], variant+"-badsig"
+	case x < 4: // signed by somebody who is not the owner
+		for _, c := range g.clients {
+			if c.ID != signer.ID {
+				signer = c
+				break
+			}
+		}
+		variant += "-badsig"
 	case x < 8:
 		tamper, variant = "prevroot", variant+"-badroot"
 	case x < 12:
@@ -349,7 +417,11 @@ func (g *gen) stepUpdate() {
 		if len(out) == 0 {
 			return
 		}
-		in["add_blobber_id"] = out[g.r.Intn(len(out))].key.ID
+		nb := out[g.r.Intn(len(out))]
+		in["add_blobber_id"] = nb.key.ID
+		if g.isEnt(a) {
+			in["add_blobber_auth_ticket"] = g.entTicket(a, nb)
+		}
 		value = g.pickU(0, 500000, 3000000)
 	case x < 88:
 		variant = "replace"
@@ -366,7 +438,11 @@ func (g *gen) stepUpdate() {
 				variant = "replace-killed"
 			}
 		}
-		in["add_blobber_id"] = out[g.r.Intn(len(out))].key.ID
+		nb := out[g.r.Intn(len(out))]
+		in["add_blobber_id"] = nb.key.ID
+		if g.isEnt(a) {
+			in["add_blobber_auth_ticket"] = g.entTicket(a, nb)
+		}
 		in["remove_blobber_id"] = rm.key.ID
 		value = g.pickU(0, 500000, 3000000)
 	case x < 94:
@@ -383,6 +459,9 @@ func (g *gen) stepUpdate() {
 	tb := ""
 	if id, ok := in["remove_blobber_id"].(string); ok {
 		tb = id
+	}
+	if g.isEnt(a) {
+		variant = "ent-" + variant
 	}
 	g.do(from, "update_allocation_request", in, value, opInfo{variant: variant + "-" + who, target: a.id, tblob: tb})
 }
@@ -553,6 +632,24 @@ func (g *gen) stepNewAlloc() {
 		return
 	}
 	owner := g.clients[g.r.Intn(2)]
+	if g.chance(28) { // enterprise allocation: 1 data + 1 parity of the three enterprise blobbers
+		perm := g.r.Perm(len(g.eblobbers))
+		bs := []*prov{g.eblobbers[perm[0]], g.eblobbers[perm[1]]}
+		variant, good := "ent", true
+		switch x := g.r.Intn(100); {
+		case x < 10:
+			variant, good = "ent-badticket", false
+		case x < 20:
+			bs[1] = g.blobbers[g.r.Intn(len(g.blobbers))]
+			variant = "ent-mixed"
+		}
+		for _, b := range bs { // enterprise blobbers must be healthy too
+			g.do(b.key, "blobber_health_check", map[string]interface{}{}, 0, opInfo{variant: "one"})
+		}
+		size := g.pickI(8, 64, 128) * MB
+		g.do(owner, "new_allocation_request", g.newEntAllocInput(owner, 1, 1, size, bs, good), g.pickU(100, 800000, 3000000), opInfo{variant: variant})
+		return
+	}
 	data := int(g.pickI(1, 2, 2))
 	parity := 1
 	n := data + parity
@@ -633,7 +730,7 @@ func indexOfA(as []*assigner, a *assigner) int {
 
 func (g *gen) stepHealth() {
 	if g.chance(35) { // everybody
-		for _, b := range g.blobbers {
+		for _, b := range append(append([]*prov{}, g.blobbers...), g.eblobbers...) {
 			g.do(b.key, "blobber_health_check", map[string]interface{}{}, 0, opInfo{variant: "all"})
 		}
 		for _, v := range g.validators {
@@ -645,8 +742,15 @@ func (g *gen) stepHealth() {
 	g.do(b.key, "blobber_health_check", map[string]interface{}{}, 0, opInfo{variant: "one"})
 }
 
+func (g *gen) anyBlobber() *prov {
+	if g.chance(20) {
+		return g.eblobbers[g.r.Intn(len(g.eblobbers))]
+	}
+	return g.blobbers[g.r.Intn(len(g.blobbers))]
+}
+
 func (g *gen) stepBlobberSettings() {
-	b := g.blobbers[g.r.Intn(len(g.blobbers))]
+	b := g.anyBlobber()
 	in := map[string]interface{}{"id": b.key.ID}
 	variant := ""
 	switch g.r.Intn(4) {
@@ -703,7 +807,7 @@ func (g *gen) stepReprice() {
 }
 
 func (g *gen) stepCollect() {
-	ps := append(append([]*prov{}, g.blobbers...), g.validators...)
+	ps := append(append(append([]*prov{}, g.blobbers...), g.eblobbers...), g.validators...)
 	p := ps[g.r.Intn(len(ps))]
 	pt := 3
 	if p.name[0] == 'v' {
@@ -713,7 +817,7 @@ func (g *gen) stepCollect() {
 }
 
 func (g *gen) stepStake() {
-	b := g.blobbers[g.r.Intn(len(g.blobbers))]
+	b := g.anyBlobber()
 	if g.chance(65) {
 		from := b.delegate
 		if g.chance(30) {
@@ -792,7 +896,12 @@ func (g *gen) replace(a *allocInfo, rm *prov) {
 	nb := out[g.r.Intn(len(out))]
 	g.do(nb.key, "blobber_health_check", map[string]interface{}{}, 0, opInfo{variant: "one"})
 	in := map[string]interface{}{"id": a.id, "add_blobber_id": nb.key.ID, "remove_blobber_id": rm.key.ID}
-	g.do(g.ownerOf(a), "update_allocation_request", in, g.pickU(0, 500000, 3000000), opInfo{variant: "replace-killed-owner", target: a.id, tblob: rm.key.ID})
+	variant := "replace-killed-owner"
+	if g.isEnt(a) {
+		in["add_blobber_auth_ticket"] = nb.key.Sign(g.ownerOf(a).ID)
+		variant = "ent-replace-killed-owner"
+	}
+	g.do(g.ownerOf(a), "update_allocation_request", in, g.pickU(0, 500000, 3000000), opInfo{variant: variant, target: a.id, tblob: rm.key.ID})
 }
 
 var _ = zcommon.Timestamp(0)
